@@ -11,7 +11,7 @@ from vlib import Rng
 BOUNDARY = ["0", "1", "len-1", "len", "len+1", "2^31", "2^32-1"]
 SAMPLES = ["test.dmp", "linux-mini.dmp", "simple-crashpad.dmp", "invalid-parameter.dmp", "pipeline-inlines-macos-segv.dmp"]
 MODEL_FIELDS = ["R", "SI", "TL", "ML", "UM", "MEM", "M64", "MI", "TI", "TN", "HD", "EX", "EXP", "EXC",
-                "TLP", "MS", "LC", "LS", "LR", "LE", "LL", "MA"]
+                "TLP", "MS", "LC", "LS", "LR", "LE", "LL", "MA", "CP"]
 # tighter than the brief's max(1 MiB, 64*len^2): the largest single request is LINEAR in the input
 PK_FLOOR = 64 * 1024
 PK_PER_BYTE = 16
@@ -574,6 +574,48 @@ class Gen:
                     data = d.add(bytes(range(16)))
                     d.stream(ST["memory_list"], d.list([d.u64(base) + d.u32(size, data), d.u64(base + 1) + d.u32(size, data + 1)]))
                     self.dump("memory_read_product", d.finish())
+        # crashpad: string kind x where it is referenced x count honesty x duplicate keys
+        kinds = ["good", "dup", "bad_utf8", "overlong_utf8", "surrogate_utf8", "no_nul", "len_past_end", "rva_past_end", "empty_at_eof"]
+        for be in (False, True):
+            for kind in kinds:
+                for where in ("simple", "mod_list", "mod_dict_key", "mod_dict_val", "obj_name", "obj_val_str", "obj_val_other"):
+                    for cnt_mode in ("exact", "plus1", "huge"):
+                        d = Dump(be, ndir=2)
+
+                        def s8(b, length=None, term=b"\0"):
+                            return d.add(d.u32(len(b) if length is None else length) + b + term)
+                        good, good2 = s8(b"key"), s8(b"caf\xc3\xa9")
+                        x = {"good": good2, "dup": good, "bad_utf8": s8(b"\xff\xfe"), "overlong_utf8": s8(b"\xc0\x80"),
+                             "surrogate_utf8": s8(b"\xed\xa0\x80"), "no_nul": s8(b"nt", term=b"x"), "len_past_end": s8(b"x", length=0x7fffffff),
+                             "rva_past_end": 0xfffffff0, "empty_at_eof": 0xffffffff}[kind]
+
+                        def cnt(n):
+                            return {"exact": n, "plus1": n + 1, "huge": 0xffffffff}[cnt_mode]
+                        xs = x
+                        simple = d.u32(cnt(2)) + d.u32(good, good2) + d.u32(xs if where == "simple" else good, good2)
+                        lst = d.u32(cnt(2)) + d.u32(good, xs if where == "mod_list" else good2)
+                        mdict = d.u32(cnt(1)) + d.u32(xs if where == "mod_dict_key" else good, xs if where == "mod_dict_val" else good2)
+                        oty = {"obj_val_str": 1, "obj_val_other": rng.choice([0, 2, 0x8000, 0xffff])}.get(where, 1)
+                        objs = d.u32(cnt(2)) + d.u32(xs if where == "obj_name" else good) + d.p("HH", oty, 0) + d.u32(xs if where in ("obj_val_str", "obj_val_other") else good2) \
+                            + d.u32(good2) + d.p("HH", 1, 0) + d.u32(good)
+                        locs = []
+                        for blob in (lst, mdict, objs):
+                            locs.append((len(blob), d.add(blob)))
+                        mi = d.add(d.u32(1) + b"".join(d.u32(a, b) for a, b in locs))
+                        links = d.u32(cnt(2)) + d.u32(0, 28, mi) + d.u32(1, 28, mi)
+                        l_links = (len(links), d.add(links))
+                        l_simple = (len(simple), d.add(simple))
+                        cp = d.u32(1) + bytes(32) + d.u32(*l_simple) + d.u32(*l_links)
+                        d.stream(ST["crashpad"], cp)
+                        b = bytearray(d.finish())
+                        if kind == "empty_at_eof":        # a zero-length string whose length word is the last thing in the file
+                            at = len(b)
+                            b += struct.pack(">I" if be else "<I", 0)
+                            raw = bytes(b)
+                            marker = struct.pack(">I" if be else "<I", 0xffffffff)
+                            raw = raw.replace(marker, struct.pack(">I" if be else "<I", at)) if cnt_mode != "huge" else raw
+                            b = bytearray(raw)
+                        self.dump("crashpad_product", bytes(b))
         # text streams: separators, quotes and every ASCII whitespace in every position
         atoms = [b"", b"k", b" k ", b"\tk\x0c", b"\"k\"", b"\"", b"\"\"", b" \"k\" ", b"\"k", b"k\"", b"\x0bk", b"k\rv", b"\xc3\xa9", b"  "]
         seps = {"linux_cpu": b":", "linux_status": b":", "linux_lsb": b"=", "linux_environ": b"=", "moz_limits": b":"}
@@ -638,7 +680,7 @@ class C01(PropBase):
     impl_mem_gb = 4
     rule = ("case = a byte string offered as a minidump (hex, or a /repo/testdata file with u32 patches). Exhaustive blocks: truncation of a "
             "10-stream dump at every offset; every 4-byte-aligned u32 of that dump replaced by each of {0,1,len-1,len,len+1,2^31,2^32-1}; both endians. "
-            "Structured hostile streams (directory count/rva/self-reference, list counts and padding, extended-list headers, UTF-16 lengths and surrogates, "
+            "Structured hostile streams built as cross products of hostile features (handle data: type pattern x chain shape x descriptor layout; misc size x xstate mask; cpu x flags x context size; crashpad string kind x reference site x count honesty; text separators/quotes/whitespace; directory count/rva/self-reference, list counts and padding, extended-list headers, UTF-16 lengths and surrogates, "
             "CodeView records, handle descriptors with object-info chains incl. cycles and unknown types, exceptions with every CPU context and "
             "number_parameters up to 2^32-1, Memory64 sizes summing past 2^64, crashpad/mac/misc/text streams), boundary mutation of two minidump-synth "
             "dumps and of the five sample dumps. Non-trivial = the header was accepted and at least one stream parsed or was rejected for a reason other "
@@ -646,7 +688,7 @@ class C01(PropBase):
     trusted_base = [
         "Coq 8.16.1 kernel; vm_compute only in witnesses (c01_*_refuted) and non-vacuity examples",
         "hand-written model C01/Model.v of minidump.rs's list/string/directory/handle/exception machinery and of scroll 0.12's Pread bounds rule; "
-        "tied to the code by the correspondence run (14 fields per case + the largest ledger entry as a lower bound of the measured peak request)",
+        "tied to the code by the correspondence run (23 fields per case + the largest ledger entry as a lower bound of the measured peak request)",
         "in-memory element sizes (size_of) in the ledger are compared with the harness's SIZES line on every run",
         "extraction: ExtrOcamlBasic only; ocaml/zconv.ml + ocaml/c01/main.ml; harness/src/bin/c01.rs with its counting global allocator and watchdog",
         "the model runs profile Debug; Release differs only where a chk_* site would wrap, which c01_no_panic excludes",
@@ -661,12 +703,14 @@ class C01(PropBase):
         "text": "partial: theorems (Coq, every byte string, Debug and Release) for the modelled core of the reader — header/endianness/directory walk, "
                 "location_slice, ensure_count_in_bound, read_stream_list / read_ex_stream_list and the seven list streams built on them, Memory64, "
                 "UTF-16/UTF-8/C-string readers, module/CodeView acceptance, the handle-data stream with its object-info chain, exception print "
-                "indexing: no Panic (c01_no_panic), every loop finishes within |file|+1 iterations (c01_terminates), every Vec::with_capacity is at most "
-                "4x the bytes of its stream (c01_alloc_backed); the same statements are REFUTED for the code before the fix commits with concrete files "
+                "indexing, context dispatch and print arms for exception and thread contexts, MiscInfo with its XSTATE feature iterator (no shift >= 64, "
+                "no index >= 64), crashpad info (dictionaries, string lists, annotation objects, module links; UTF-8 validity), Linux text-stream key/value "
+                "iteration, get_memory_at_address bounds: no Panic (c01_no_panic), every loop finishes within |file|+1 iterations (c01_terminates), every "
+                "Vec::with_capacity is at most 10x the file, the list readers at most 4x the bytes of their stream (c01_alloc_backed, c01_*_total); the same statements are REFUTED for the code before the fix commits with concrete files "
                 "(c01_*_unfixed_refuted: F-C01a..d). The rest of the property lives in the runtime and is searched, not proved: a harness with a counting "
                 "global allocator and a watchdog opens each case, requests all 24 stream types, runs every accessor and print routine, and an oracle "
                 "requires no panic, termination and a largest single allocation <= max(64 KiB, 16*len); the extracted model must agree with the real "
-                "reader on 14 observables per case.",
+                "reader on 23 observables per case.",
         "note": "Trusted: Coq kernel; hand-written model (correspondence-checked on every run, not verified against the Rust source); scroll's Pread "
                 "bounds rule as read from its source; extraction + OCaml/Rust glue; the counting allocator. Not covered by theorem: contents of streams "
                 "outside the list machinery, all printers (incl. MinidumpContext::print), encoding_rs/time, C08's range maps. No axioms.",
